@@ -221,6 +221,16 @@ func agentParams(t *testing.T, tp *simrt.Tape, cfg simrt.Config, sc *agentScenar
 		// a non-adjacent consumer: two hops after the producers
 		d.Steps = append(d.Steps, mk("cfar", []string{"cpost"}, allProds))
 	}
+	if chance(tp, 1, 3) {
+		// the "declare a default, let a step replace it" idiom: the DAG's env: gives the name of a captured
+		// output a default value; every step after the producer must see the captured value, not the default
+		for _, p := range allProds {
+			if chance(tp, 1, 2) {
+				d.Env = append(d.Env, "OUT_"+p+"=declared-default-of-"+p)
+			}
+		}
+		bump(out, "output_name_has_declared_default")
+	}
 	d.Handlers = map[string]*HandlerSpec{"exit": {}}
 	for _, k := range []string{"success", "failure"} {
 		if chance(tp, 1, 2) {
